@@ -425,6 +425,11 @@ class World:
         objs = [self.obj[x] for x in others]
         model = set(members)
         attach = [x for x in others if x not in model]
+        if op == "add" and members and rnd.random() < 0.3:
+            # a member added again: nothing to do, as for the built-in
+            others = [rnd.choice(members)]
+            objs = [self.obj[others[0]]]
+            self.ctx.count("c16:set_add_present_member")
         if op in ("add", "discard", "remove"):
             if not others:
                 return
@@ -461,7 +466,7 @@ class World:
         before_obj = S
         # an iterator taken before the operation and consumed after it
         live_it, seen_before = None, []
-        if rnd.random() < 0.12:
+        if rnd.random() < 0.3:
             live_it = iter(S)
             for _ in range(rnd.randint(0, len(model))):
                 seen_before.append(self.of(next(live_it)))
@@ -1389,6 +1394,52 @@ class World:
                     "payload": self.of(pay) if isinstance(pay, gt.Node)
                     else pay})
 
+    def op_readd_during_iteration(self):
+        """Members are added again (a no-op for a set) while somebody is in
+        the middle of iterating over the collection, after some churn that
+        left the underlying table with freed slots."""
+        rnd = self.rnd
+        pk, coll, ck = rnd.choice(SET_RELS)
+        ps = [p for p in self.lids(pk) if self.children(p, ck)]
+        if not ps:
+            return
+        p = rnd.choice(ps)
+        S = getattr(self.obj[p], coll)
+        temps = [self.make(rnd.choice(ck)) for _ in range(rnd.randint(2, 9))]
+        if not self.can_attach_all(temps, p):
+            return
+        self.log(op="readd_during_iteration", parent=p, coll=coll,
+                 churn=len(temps))
+        S.update([self.obj[x] for x in temps])
+        for x in temps:
+            S.discard(self.obj[x])
+        members = self.children(p, ck)
+        it = iter(S)
+        seen = [self.of(next(it)) for _ in range(rnd.randint(0, len(members)))]
+        route = rnd.choice(["add", "update", "ior", "attr"])
+        again = rnd.sample(members, rnd.randint(1, len(members)))
+        objs = [self.obj[x] for x in again]
+        if route == "add":
+            for o in objs:
+                S.add(o)
+        elif route == "update":
+            S.update(objs)
+        elif route == "ior":
+            S |= set(objs)
+        else:
+            attr = REL[self.kind[again[0]]][1]
+            for o in objs:
+                setattr(o, attr, self.obj[p])
+        rest = [self.of(x) for x in it]
+        self.ctx.count("c16:readd_during_iteration")
+        if collections.Counter(seen + rest) != collections.Counter(members):
+            self.fail("C16", "set.readd:%s:iterator-broken-by-noop:%s" % (
+                RELNAME[ck[0]], route),
+                "members of %s.%s were added again (%s) while an iterator "
+                "was half-way: it yielded %s in all, the members are %s"
+                % (p, coll, route, sorted(seen + rest), sorted(members)))
+        return "readd_during_iteration:" + RELNAME[ck[0]]
+
     def op_reuuid(self):
         """A node with no parent (its subtree is then in no IR) is given
         another UUID: everything that refers to it refers to the object."""
@@ -1485,14 +1536,14 @@ WEIGHTS = {
     "C03": {"reuuid": 1, "twin_replace": 2, "set_parent": 5, "set_mutation": 6, "list": 4, "ctor": 3,
             "symbol": 1, "attr": 1, "load": 1, "set_query": 1,
             "pingpong": 3, "bulk": 1},
-    "C04": {"reuuid": 1, "twin_replace": 2, "set_parent": 6, "set_mutation": 5, "list": 5,
+    "C04": {"reuuid": 1, "readd_during_iteration": 2, "twin_replace": 2, "set_parent": 6, "set_mutation": 5, "list": 5,
             "ctor": 4,
             "symbol": 1, "attr": 4, "load": 1, "set_query": 1,
             "pingpong": 3, "bulk": 1},
     "C10": {"reuuid": 1, "set_parent": 4, "set_mutation": 4, "list": 2, "ctor": 3,
             "symbol": 8, "attr": 1, "load": 1, "set_query": 0,
             "pingpong": 6, "bulk": 0},
-    "C16": {"reuuid": 1, "twin_replace": 2, "set_parent": 2, "set_mutation": 6, "list": 7,
+    "C16": {"reuuid": 1, "readd_during_iteration": 2, "twin_replace": 2, "set_parent": 2, "set_mutation": 6, "list": 7,
             "ctor": 2,
             "symbol": 1, "attr": 1, "load": 0, "set_query": 6,
             "pingpong": 1, "bulk": 1},
